@@ -104,10 +104,12 @@ CHECKS.update({
                      "checker error) and independently assembled dense Hamiltonians for the model builders; bounded; several recorded findings.",
                 technique="runtime contracts (defining relations, independent closed forms, quadrature) on the real op_mat / builders over bounded parameter grids",
                 note=OTHER_NOTE),
-    "C17": dict(cat="exploration", ref="DESIGN §8 C17",
-                text="Jordan-Wigner models vs an independent Fock-space fermionic reference (1..3(4) spatial orbitals, exhaustive sparsity patterns for 1-2), site swaps with and "
+    "C17": dict(cat="other", ref="DESIGN §8 C17, S.2",
+                text="The Jordan-Wigner sign loop of simplify_op proved on a mechanical slice (pyvc: the counters equal the number of (non-Z, Z) inversions, the factor is "
+                     "(-1)^inversions) with 2x2 matrix lemmas discharged by z3; Jordan-Wigner models vs an independent Fock-space fermionic reference (1..3(4) spatial orbitals, exhaustive sparsity patterns for 1-2), site swaps with and "
                      "without the JW remap vs P H P^T / F H F^T, OFS runs vs exact references; bounded; two recorded findings.",
-                technique="runtime contracts against an independent anticommuting-operator reference (bounded stand-in)",
+                technique="contract-based deductive verification (pyvc slice + z3 lemmas) of the sign bookkeeping; runtime contracts against an independent anticommuting-operator "
+                          "reference (bounded stand-in)",
                 note=OTHER_NOTE),
     "C18": dict(cat="exploration", ref="DESIGN §8 C18",
                 text="Kernel contracts evaluated at run time: expm_krylov vs scipy expm to its own stopping tolerance over structured spectra / start vectors inside "
@@ -168,7 +170,7 @@ def main():
                   "baseline_off_cmd": "cd /repo && /venv/bin/python -m pytest -ra -q -p no:cacheprovider --timeout=900 --continue-on-collection-errors",
                   "source_commits": [], "add_only": True},
         "engines": [
-            {"name": "pyvc", "path": "vk/pyvc", "serves_properties": ["C02", "C03", "C04", "C05", "C06", "C14", "C20"], "kind_free_text": "AST -> verification conditions (loop invariants, call by contract) -> z3/cvc5"},
+            {"name": "pyvc", "path": "vk/pyvc", "serves_properties": ["C02", "C03", "C04", "C05", "C06", "C14", "C17", "C20"], "kind_free_text": "AST -> verification conditions (loop invariants, call by contract) -> z3/cvc5"},
             {"name": "exact-exec", "path": "vk/symx/exactexec.py", "serves_properties": ["C19"], "kind_free_text": "real source executed on exact rationals / z3 reals"},
             {"name": "effects", "path": "vk/pyvc/effects.py", "serves_properties": ["C13"], "kind_free_text": "alias / effect analysis of the real source against sidecar modifies clauses"},
             {"name": "symx", "path": "vk/symx", "serves_properties": ["C01", "C02", "C03", "C07", "C11"], "kind_free_text": "real NumPy-level code executed on exact symbolic polynomial scalars; identities decided by normal form"},
